@@ -170,12 +170,14 @@ def check_rotation(ctx: Ctx, c: Dict[str, Any], k: int) -> None:
         from deepali.spatial import EulerRotation
 
         g3 = Grid(size=(4, 5, 6))
-        for holder in ("tensor", "param"):
-            if holder == "param" and any(abs(abs(float(v)) - math.pi) < 1e-9 for v in ang):
+        for holder in ("tensor", "param", "frozen"):
+            if holder != "tensor" and any(abs(abs(float(v)) - math.pi) < 1e-9 for v in ang):
                 continue  # +-pi is the open end of the squashed parameter range
-            t = guarded("EulerRotation", lambda: EulerRotation(g3, params=(holder == "param"), order="".join(order)), **osig)
+            t = guarded("EulerRotation", lambda: EulerRotation(g3, params=(holder != "tensor"), order="".join(order)), **osig)
             if t is None:
                 continue
+            if holder == "frozen":  # an optimisable parameter that is currently frozen is still a (squashed) Parameter
+                t.requires_grad_(False)
             if guarded("EulerRotation.angles_", lambda: t.angles_(ang.unsqueeze(0).float()), holder=holder, **osig) is None:
                 continue
             tm = guarded("EulerRotation.tensor", lambda: t.tensor().double(), holder=holder, form="batched", **osig)
